@@ -335,3 +335,17 @@ def rule_isel(b):
 def _p(tg, t):
     loc = tg.loc_of(t)
     return loc[1] if loc[0] == "reg" else "[sp%+d]" % loc[1][1]
+
+
+def rule_isel_mov_only(ctx):
+    """the `mov` rows of R-ISEL for the three backends (used by C11)"""
+    out = []
+    for b in ("x86_64", "aarch64", "rv64"):
+        r = rule_isel(b)(ctx)
+        r.instances = [i for i in r.instances if i["key"].endswith(":mov")]
+        r.violations = [v for v in r.violations if v.key.endswith(":mov")]
+        r.nontrivial = {i["key"] for i in r.instances}
+        r.obligations = len(r.instances)
+        r.discharged = len([i for i in r.instances if i["verdict"] == "ok"])
+        out.append(r)
+    return out
